@@ -21,6 +21,7 @@ structure Entry (c : Cfg) (m : Memory) (σ : St) : Prop where
   rsp : (σ.get 4).toNat = m.stack.base + 552
   mem : MemRel σ.mem m
   sentinel : readMem σ.mem (m.stack.base + 552) 8 = some (leBytes c.retSentinel.toNat 8)
+  room : ∃ lower, σ.mem.getLast? = some lower ∧ lower.base + 72 ≤ m.stack.base
 
 /-- the eBPF state the compiled code starts from: r1 as the prologue computes it, r10 = top of the stack, every other
     register whatever the machine register it is mapped to holds at entry (compiled code does not zero them) -/
